@@ -309,6 +309,35 @@ func vfC04ChildBatch(t *testing.T, path string) {
 }
 
 func vfC04RunBatch(s *vfutil.Session, cases []vfC04BatchCase, mark func(string)) []vfC04BatchRes {
+	return vfC04RunBatchT(s, cases, mark, 40*time.Second, true)
+}
+
+// vfC04RefUnit: one unit of the reference work the confirmation budget is counted in: a fixed amount of CPU work done
+// by a goroutine of THIS process (about 5 ms on an idle core). Under load it slows down with the child it waits for.
+var vfC04RefSink uint64
+
+// vfC04HangConfirmed: a silent case has been silent again, alone, for the counted budget
+var vfC04HangConfirmed bool
+
+func vfC04RefUnit() {
+	x := vfC04RefSink | 1
+	for i := 0; i < 3_000_000; i++ {
+		x ^= x << 13
+		x ^= x >> 7
+		x ^= x << 17
+	}
+	vfC04RefSink = x
+}
+
+// vfC04RunBatchT: `budget` of silence per case. confirm (first pass, wall clock): a case the child was silent on is
+// not judged yet, it is run ONCE MORE, alone, in a fresh child. In that second pass (confirm = false) the budget is
+// not wall-clock time: it is COUNTED in units of reference work (vfC04RefUnit) done by a goroutine of this process
+// between two looks at the child's output — six times the first budget's worth of units (budget / 5 ms x 6). A decoder
+// that does not advance (D23) is silent for any number of units: silent again alone = `hang`, a violation with the
+// input. A machine under load stretches the units together with the child (session 5: a thorough run at load average
+// 80 lost a 40 s wall-clock race on an input that replays in milliseconds): the wall clock may delay a verdict, it
+// does not make one.
+func vfC04RunBatchT(s *vfutil.Session, cases []vfC04BatchCase, mark func(string), budget time.Duration, confirm bool) []vfC04BatchRes {
 	out := make([]vfC04BatchRes, len(cases))
 	if len(cases) == 0 {
 		return out
@@ -346,38 +375,96 @@ func vfC04RunBatch(s *vfutil.Session, cases []vfC04BatchCase, mark func(string))
 			close(lines)
 		}()
 		finished := false
+		timedOut := false
+		var refStops []chan struct{}
+		// the silence budget: wall clock in the first pass, counted reference work in the confirmation pass
+		silence := func() <-chan struct{} {
+			c := make(chan struct{})
+			units := 6 * int(budget/(5*time.Millisecond))
+			stopRef := make(chan struct{})
+			go func() {
+				for u := 0; u < units; u++ {
+					select {
+					case <-stopRef:
+						return
+					default:
+					}
+					vfC04RefUnit()
+					if u%64 == 0 {
+						mark(fmt.Sprintf("confirm %d/%d", u, units)) // the global watchdog sees progress
+					}
+				}
+				close(c)
+			}()
+			refStops = append(refStops, stopRef)
+			return c
+		}
 	read:
 		for {
+			var wall <-chan time.Time
+			var quiet <-chan struct{}
+			if confirm {
+				wall = time.After(budget)
+			} else {
+				quiet = silence()
+			}
+			timeout := false
+			var l string
+			var ok bool
 			select {
-			case l, ok := <-lines:
-				if !ok {
-					break read
-				}
-				if l == "C04B done" {
-					finished = true
-					continue
-				}
-				var idx int
-				var r vfC04BatchRes
-				var miss string
-				if _, err := fmt.Sscanf(l, "C04B %d %t %t %t %t %q %s", &idx, &r.Err, &r.Cp, &r.All, &r.Leak, &r.Died, &miss); err == nil && idx == next {
-					json.Unmarshal([]byte(miss), &r.Missing)
-					out[idx] = r
-					next++
-					mark(fmt.Sprintf("batch %d", next))
-				}
-			case <-time.After(40 * time.Second):
+			case l, ok = <-lines:
+			case <-wall:
+				timeout = true
+			case <-quiet:
+				timeout = true
+			}
+			for _, st := range refStops {
+				close(st)
+			}
+			refStops = nil
+			if timeout {
 				cmd.Process.Kill()
+				timedOut = true
 				if next < len(cases) {
 					out[next] = vfC04BatchRes{Died: "hang"}
+					if confirm && !vfC04HangConfirmed {
+						mark(fmt.Sprintf("batch %d confirm", next))
+						s.Count("batch_child_silent_case_rerun_alone")
+						if again := vfC04RunBatchT(s, cases[next:next+1], mark, budget, false); again[0].Died != "hang" {
+							out[next] = again[0]
+							s.Count("infra_child_slow_under_load_not_a_hang")
+						} else {
+							// silent again, alone, for the counted budget: a hang. The verdict of the run is made; further silent
+							// cases are listed as witnesses on the first budget alone (a code that hangs on hundreds of inputs
+							// must not cost minutes of confirmation for each)
+							vfC04HangConfirmed = true
+							s.Count("hang_confirmed_by_counted_budget")
+						}
+					}
 					next++
 				}
 				break read
 			}
+			if !ok {
+				break read
+			}
+			if l == "C04B done" {
+				finished = true
+				continue
+			}
+			var idx int
+			var r vfC04BatchRes
+			var miss string
+			if _, err := fmt.Sscanf(l, "C04B %d %t %t %t %t %q %s", &idx, &r.Err, &r.Cp, &r.All, &r.Leak, &r.Died, &miss); err == nil && idx == next {
+				json.Unmarshal([]byte(miss), &r.Missing)
+				out[idx] = r
+				next++
+				mark(fmt.Sprintf("batch %d", next))
+			}
 		}
 		cmd.Process.Kill()
 		cmd.Wait()
-		if !finished && next < len(cases) && out[next].Died == "" && (next == 0 || out[next-1].Died != "hang") {
+		if !finished && next < len(cases) && out[next].Died == "" && !timedOut {
 			// the child died while working on case `next`
 			died := "crash"
 			if strings.Contains(stderr.String(), "out of memory") || strings.Contains(stderr.String(), "cannot allocate") {
@@ -727,6 +814,10 @@ type vfC04Res struct {
 	Leak       bool
 	FailCmd    string // command of the request the fault was injected at
 	Died       string // the worker child died on this case: crash | oom | hang
+	// session 5: per keyed COMMAND (rendered request: command, key, arguments), the requests the double EXECUTED (not the one an error was injected at, not
+	// those left in a MULTI that was never executed) — against the undisturbed run of the scenario this is how often
+	// the entry was applied
+	KeyReqs map[string]int
 }
 
 func vfC04DefaultOpts() vfC04Opts {
@@ -903,6 +994,36 @@ func vfC04Send(t *testing.T, kvs []vfc20.KV, data []byte, size int64, o vfC04Opt
 		}
 		if o.Bisync && ro.bisyncOffset.Load() == vfC04Left {
 			res.Cp = true // bisync resume position advanced to the snapshot's offset
+		}
+		{
+			isKey := map[string]bool{}
+			for _, kv := range kvs {
+				isKey[string(kv.Key)] = true
+			}
+			res.KeyReqs = map[string]int{}
+			pending := map[int][]string{}
+			for i, e := range log {
+				failed := (o.FailAt >= 0 && i == o.FailAt) || (o.FailFrom > 0 && i >= o.FailFrom-1) || (o.DropAt > 0 && i == o.DropAt-1)
+				switch {
+				case e.Cmd() == "exec":
+					if !failed {
+						for _, k := range pending[e.Conn] {
+							res.KeyReqs[k]++
+						}
+					}
+					delete(pending, e.Conn)
+				case e.Cmd() == "multi" || e.Cmd() == "discard":
+					delete(pending, e.Conn)
+				default:
+					if len(e.Args) >= 2 && isKey[string(e.Args[1])] && !failed && !(o.FailInner > 0 && i == o.FailInner-1) {
+						if e.Queued {
+							pending[e.Conn] = append(pending[e.Conn], e.String())
+						} else {
+							res.KeyReqs[e.String()]++ // per COMMAND (command + key + arguments): a push sent twice is told from two pushes
+						}
+					}
+				}
+			}
 		}
 		res.AllApplied = true
 		for _, kv := range kvs {
@@ -1091,6 +1212,31 @@ func vfC04Monitor(s *vfutil.Session, what string, file string, data []byte, o vf
 	} else {
 		s.Count("complete_replays")
 	}
+}
+
+// vfC04ResTokM: result, checkpoint and the multiplicity of the applied entries against the undisturbed run `ref`
+// (twice: some key received more requests than one application needs; once — reported for a replay that returned nil
+// only — every key received exactly the requests of one application)
+func vfC04ResTokM(r vfC04Res, ref map[string]int) string {
+	twice, once := 0, 1
+	for k, n := range ref {
+		if r.KeyReqs[k] > n {
+			twice = 1
+		}
+		if r.KeyReqs[k] != n {
+			once = 0
+		}
+	}
+	for k := range r.KeyReqs {
+		if _, ok := ref[k]; !ok { // a keyed command the undisturbed run never sends
+			twice, once = 1, 0
+		}
+	}
+	os := "-"
+	if r.Err == nil {
+		os = fmt.Sprint(once)
+	}
+	return fmt.Sprintf("%s twice=%d once=%s", vfC04ResTok(r), twice, os)
 }
 
 func vfC04ResTok(r vfC04Res) string {
@@ -1693,7 +1839,10 @@ func TestVerifC04(t *testing.T) {
 				continue
 			}
 			add(data, len(data), false)
-			tstep, pstep := vfutil.Scale(7, 1), vfutil.Scale(7, 1)
+			tstep, pstep := vfutil.Scale(7, 1), vfutil.Scale(7, 2)
+			if vfutil.Thorough() && len(data) > 700 {
+				pstep = 4 // volume, not kinds: every mask and every written value at every 2nd / 4th position, the offset drawn from VERIF_SEED
+			}
 			masks := []int{0x01, 0xF5}
 			if vfutil.Thorough() {
 				masks = []int{0x01, 0x04, 0x10, 0x80, 0xFF, 0xF5, 0x7F}
@@ -1783,7 +1932,7 @@ func TestVerifC04(t *testing.T) {
 		clean := vfC04Send(t, f.KVs, data, int64(len(data)), o)
 		vfC04Monitor(s, "clean", f.Name, data, o, clean)
 		if tie {
-			s.Op(vfC04FanOp(data, o, "clean"), vfC04ResTok(clean))
+			s.Op(vfC04FanOp(data, o, "clean")+" mult=1", vfC04ResTokM(clean, clean.KeyReqs))
 		}
 		if clean.Err != nil || !clean.Cp || !clean.AllApplied {
 			s.Violate("clean-run-failed", fmt.Sprintf("intact snapshot: err=%v cp=%v all=%v missing=%q", clean.Err, clean.Cp, clean.AllApplied, clean.Missing),
@@ -1801,7 +1950,7 @@ func TestVerifC04(t *testing.T) {
 		r := vfC04Send(t, f.KVs, data, int64(len(data)), oc)
 		vfC04Monitor(s, "cancel-before-start", f.Name, data, oc, r)
 		if tie {
-			s.Op(vfC04FanOp(data, o, "cancel0"), vfC04ResTok(r))
+			s.Op(vfC04FanOp(data, o, "cancel0")+" mult=1", vfC04ResTokM(r, clean.KeyReqs))
 		}
 		for k := 0; k < nData; k++ {
 			// target error at request k (single shot; EXEC included)
@@ -1812,7 +1961,7 @@ func TestVerifC04(t *testing.T) {
 			r := vfC04Send(t, f.KVs, data, int64(len(data)), of)
 			vfC04Monitor(s, "target-error", f.Name, data, of, r)
 			if tie {
-				s.Op(vfC04FanOp(data, o, fmt.Sprintf("fail:%d", k)), vfC04ResTok(r))
+				s.Op(vfC04FanOp(data, o, fmt.Sprintf("fail:%d", k))+" mult=1", vfC04ResTokM(r, clean.KeyReqs))
 			}
 			s.Count("fan_fail")
 			// the target fails from request k on, for good
@@ -1862,7 +2011,7 @@ func TestVerifC04(t *testing.T) {
 				r = vfC04Send(t, f.KVs, data, int64(len(data)), oh)
 				vfC04Monitor(s, "cancel-while-worker-holds-queue", f.Name, data, oh, r)
 				if rep == 0 && tie {
-					s.Op(vfC04FanOp(data, o, fmt.Sprintf("hold:%d:0", k%par)), vfC04ResTok(r))
+					s.Op(vfC04FanOp(data, o, fmt.Sprintf("hold:%d:0", k%par))+" mult=1", vfC04ResTokM(r, clean.KeyReqs))
 				}
 				s.Count("fan_hold_cancel")
 			}
@@ -2034,6 +2183,10 @@ func TestVerifC04(t *testing.T) {
 
 	// ------------------------------------------------ x. session 4: extended grammar, LZF buffer, split values (vf_c04x_test.go)
 	vfC04Extended(t, s, mark, rnd, maxVer, phase)
+
+	// ------------------------------------------------ s. session 5: enumerated schedules, multiplicity, a later replay beside an
+	// aborted one (vf_c04s_test.go)
+	vfC04Session5(t, s, mark, phase)
 
 	phase("4")
 	// ------------------------------------------------ 4. thorough: many generated files, random positions
